@@ -20,6 +20,11 @@ def jobs_for(tier: str, rng: random.Random, *, extreme=False, watch=False, names
             jobs.append({"name": name, "bounds": bounds, "prec": prec, "rem": rem, "bs": rng.randint(1, 2 if heavy else 4),
                          "seed": rng.randrange(2**31), "ncalls": 4 if not heavy else 3, "rseed": rng.randrange(2**31),
                          "extreme": extreme, "watch": watch})
+    # finite losses beyond the float32 range (one-sided or two-sided): XGBoost has to return its batch all the same
+    for i in range(8 if tier == "quick" else 60):
+        bounds, prec, rem = sh.random_space(rng, max_dims=4)
+        jobs.append({"name": "XGBoostSampler", "bounds": bounds, "prec": prec, "rem": rem, "bs": rng.randint(1, 3), "seed": rng.randrange(2**31),
+                     "ncalls": 3, "rseed": rng.randrange(2**31), "extreme": "finite", "watch": watch})
     # histories held as integers / in single precision on grids with elements that are neither (the proposal is a grid element all the same)
     templates = [(0.0, 10.0, 2.5), (-3.0, 3.0, 1.5), (0.0, 1.0, 0.1), (0.0, 2.0, 0.25), (-1.0, 1.0, 0.5), (0.0, 6.0, 0.75), (5.0, 6.0, 0.1)]
     for i in range(12 if tier == "quick" else 120):
